@@ -2,7 +2,7 @@
 # verify_seed.sh <Cxx> <mi>: confirm a seeded change in a scratch worktree of /repo's HEAD:
 # patch applies, library test suite passes with it, demo fails with it and passes without it.
 export GOFLAGS=-mod=mod GOPROXY=off GOSUMDB=off GOTOOLCHAIN=local
-id=$1; m=$2; src=/tmp/seed_out/$id/$m; wt=/tmp/mv/${id}_$m
+id=$1; m=$2; src=${SRCROOT:-/tmp/seed_out}/$id/$m; wt=/tmp/mv/${id}_$m
 rm -rf $wt; git -C /repo worktree prune; git -C /repo worktree add -q --detach $wt HEAD || exit 9
 cd $wt
 res="id=$id m=$m"
